@@ -3,7 +3,7 @@
    threaded through a world that records instrumented calls, cancellation and
    closable registrations.  It shares no code with the repository.
    Definitions only. *)
-From Ferret Require Export Syntax FloatOps Compare.
+From Ferret Require Export Syntax FloatOps Compare Match.
 
 (* ------------------------------------------------------------------ outcomes *)
 Inductive errclass :=
@@ -403,12 +403,11 @@ Fixpoint assoc_last (k : bytes) (m : list (bytes * value)) (acc : option value) 
 Definition obj_get (m : list (bytes * value)) (k : bytes) : value :=
   match assoc_last k m None with Some v => v | None => VNone end.
 
-(* Array.Get: beyond the end -> none; a negative index is a Go run-time fault *)
+(* Array.Get: a position outside the array (beyond the end, or negative) -> none *)
 Definition arr_get (l : list value) (i : Z) : outcome value :=
   match l with
   | [] => Ok VNone
-  | _ => if Z.of_nat (length l) - 1 <? i then Ok VNone
-         else if i <? 0 then PanicErr
+  | _ => if (Z.of_nat (length l) - 1 <? i) || (i <? 0) then Ok VNone
          else Ok (nth (Z.to_nat i) l VNone)
   end.
 
@@ -705,8 +704,31 @@ Fixpoint eval_g (fuel : nat) (e : expr) (sc : frames) {struct fuel} : M value :=
     | ECmp o a b => do l <- eval_g a sc; do r <- eval_g b sc; ret (VBool (op_cmp o l r))
     | EIn neg a b => do l <- eval_g a sc; do r <- eval_g b sc; ret (op_in neg l r)
     | EQuant q c a b => do l <- eval_g a sc; do r <- eval_g b sc; ret (op_quant q c l r)
-    | ELike _ _ _ => fail OutOfDomain
-    | ERegex _ _ _ => fail OutOfDomain
+    | ELike neg a b =>
+        do l <- eval_g a sc; do r <- eval_g b sc;
+        match l, r with
+        | VStr s, VStr p =>
+            match glob_match p s with
+            | Some m => ret (VBool (xorb neg m))
+            | None => fail OutOfDomain
+            end
+        | _, _ => ret (VBool false)          (* like.go: a non-string operand is simply "no" *)
+        end
+    | ERegex neg a b =>
+        do l <- eval_g a sc; do r <- eval_g b sc;
+        let str v := match v with
+                     | VStr s => Some s
+                     | VInt z => Some (int_to_string z)
+                     | _ => None
+                     end in
+        match str l, str r with
+        | Some s, Some p =>
+            match regex_match p s with
+            | Some m => ret (VBool (xorb neg m))
+            | None => fail OutOfDomain
+            end
+        | _, _ => fail OutOfDomain
+        end
     | EMath o a b => do l <- eval_g a sc; do r <- eval_g b sc; lift (op_math o l r)
     | ERange a b => do l <- eval_g a sc; do r <- eval_g b sc; lift (op_range l r)
     | EMember src path =>
@@ -959,33 +981,39 @@ with next_g (fuel : nat) (it : iter) (sc : frames) {struct fuel} : M (option (fr
                                   do cs <- set_var x (VInt (Z.of_nat (length scopes))) (fork sc);
                                   ret [cs]
                               | CTAggr sels =>
-                                  do scopes <- drain fuel' src [];
-                                  (* selector by selector, row by row in the code; per row the
-                                     selectors run in order: arguments are collected per row *)
-                                  do cols <- (fix rows_ (l : list frames) (acc : list (list (list value))) : M (list (list (list value))) :=
-                                                match l with
-                                                | [] => ret acc
-                                                | s :: r =>
-                                                    do acc' <- (fix sels_ (ss : list (name * name * list expr)) (acc : list (list (list value)))
-                                                                  : M (list (list (list value))) :=
-                                                                  match ss, acc with
-                                                                  | (_, _, args) :: sr, col :: cr =>
-                                                                      do col' <- (fix args_ (as_ : list expr) (col : list (list value)) : M (list (list value)) :=
-                                                                                    match as_, col with
-                                                                                    | a :: ar, c :: cr0 => do v <- eval_g fuel' a s; do rest <- args_ ar cr0; ret ((c ++ [v]) :: rest)
-                                                                                    | _, _ => ret []
-                                                                                    end) args col;
-                                                                      do rest <- sels_ sr cr;
-                                                                      ret (col' :: rest)
-                                                                  | _, _ => ret []
-                                                                  end) sels acc;
-                                                    rows_ r acc'
-                                                end) scopes (map (fun sel => map (fun _ => []) (snd sel)) sels);
+                                  (* rows are pulled one at a time and the aggregate arguments are
+                                     evaluated on each before the next row is pulled *)
+                                  do colsn <- (fix rows_ (n : nat) (src : iter) (acc : list (list (list value))) (cnt : nat)
+                                                 : M (list (list (list value)) * nat) :=
+                                                match n with
+                                                | O => fail OutOfFuel
+                                                | S n' =>
+                                                    do r <- next_g fuel' src (fork sc);
+                                                    match r with
+                                                    | None => ret (acc, cnt)
+                                                    | Some (s, src') =>
+                                                        do acc' <- (fix sels_ (ss : list (name * name * list expr)) (acc : list (list (list value)))
+                                                                      : M (list (list (list value))) :=
+                                                                      match ss, acc with
+                                                                      | (_, _, args) :: sr, col :: cr =>
+                                                                          do col' <- (fix args_ (as_ : list expr) (col : list (list value)) : M (list (list value)) :=
+                                                                                        match as_, col with
+                                                                                        | a :: ar, c :: cr0 => do v <- eval_g fuel' a s; do rest <- args_ ar cr0; ret ((c ++ [v]) :: rest)
+                                                                                        | _, _ => ret []
+                                                                                        end) args col;
+                                                                          do rest <- sels_ sr cr;
+                                                                          ret (col' :: rest)
+                                                                      | _, _ => ret []
+                                                                      end) sels acc;
+                                                        rows_ n' src' acc' (S cnt)
+                                                    end
+                                                end) fuel' src (map (fun sel => map (fun _ => []) (snd sel)) sels) O;
+                                  let '(cols, nrows) := colsn in
                                   (* reducers are called directly: no context check *)
                                   do cs <- (fix red (ss : list (name * name * list expr)) (cols : list (list (list value))) (cs : frames) : M frames :=
                                               match ss, cols with
                                               | (x, f, _) :: sr, col :: cr =>
-                                                  let args := match scopes with [] => [] | _ => map VArr col end in
+                                                  let args := match nrows with O => [] | _ => map VArr col end in
                                                   do _ <- (if strict then check_ctx else ret tt);
                                                   do v <- call_fn f args;
                                                   do cs' <- set_var x v cs;
